@@ -94,10 +94,23 @@ def a1(ctx):
 def a2(ctx):
     crate = ctx.lib()
     stores = datum_stores(crate)
-    merges = set(C.need("merge", C.merge_functions(crate)))
+    reg = C.merge_region(crate)
+    members = set(reg["members"])
+    tops = set(reg["entries"])
+    C.need("merge core", reg["core"])
+    C.need("merge entries", reg["entries"])
+    ufs = set(C.uf_setters(crate))
+    # the deprecated side, in terms of the entry's parameters
+    dep_top = set()
+    for cid in reg["core"]:
+        cb = crate.bodies[cid]
+        for c in C.calls_to(crate, cb, ufs):
+            idr = strip_role(cb.role_of_operand(c.args[1]))
+            if idr[0] == "field" and idr[1][0] == "param":
+                dep_top |= C.lift_param(crate, cid, idr[1][1], tops)
     n = 0
     for root, b, bi, s in stores:
-        if root.id not in merges:
+        if root.id not in members:
             continue
         n += 1
         sr = strip_role(b.role_of_rvalue(s["rv"]))
@@ -110,20 +123,17 @@ def a2(ctx):
                 ps.add(x[1][1])
         ctx.check(len(ps) >= 2, "joins-both-sides:" + key, "merged datum depends on both classes' data (%s)" % sorted(ps),
                   "the datum stored on a class merge depends only on %s: the other class's datum is lost" % sorted(ps), where_of(b, bi, s.get("line")))
-        # stored into the survivor: the place written derives from analysis_data_mut(survivor)
+        # stored into the survivor: the place written derives from the datum of a parameter that is not the deprecated side
         tgt = strip_role(b.role_of_local(s["lhs"]["l"]))
-        ufs = set(C.uf_setters(crate))
-        dep = None
-        for c in C.calls_to(crate, b, ufs):
-            idr = strip_role(b.role_of_operand(c.args[1]))
-            if idr[0] == "field" and idr[1][0] == "param":
-                dep = idr[1][1]
-        surv_ok = dep is not None and any(isinstance(x, tuple) and x[0] == "field" and x[2] == "id" and x[1][0] == "param" and x[1][1] != dep for x in role_walk(tgt)) \
-            and not any(isinstance(x, tuple) and x[0] == "field" and x[2] == "id" and x[1] == ("param", dep) for x in role_walk(tgt))
-        ctx.check(surv_ok, "stored-in-survivor:" + key, "the joined datum is stored in the surviving class (not in %s)" % dep,
-                  "the joined datum is stored through %s, which is not the surviving class's datum" % role_str(tgt), where_of(b, bi, s.get("line")))
+        tps = {x[1][1] for x in role_walk(tgt) if isinstance(x, tuple) and x[0] == "field" and x[2] == "id" and x[1][0] == "param"}
+        lifted = set()
+        for p in tps:
+            lifted |= C.lift_param(crate, root.id, p, tops)
+        surv_ok = bool(lifted) and not (lifted & dep_top) and bool(dep_top)
+        ctx.check(surv_ok, "stored-in-survivor:" + key, "the joined datum is stored in the surviving class (deprecated side: %s)" % sorted(p for _, p in dep_top),
+                  "the joined datum is stored through %s (bound to %s), which is not the surviving class's datum (the class whose union-find entry is redirected is %s)" % (role_str(tgt)[:80], sorted(lifted), sorted(dep_top)), where_of(b, bi, s.get("line")))
         _both_queues_on_change(ctx, crate, b, bi, None, key)
-    ctx.floor("datum stores in the merge function", n, 1)
+    ctx.floor("datum stores in the merge region", n, 1)
 
 
 @rule("A3", doc="modify queue drained after pending, with canonical ids")
